@@ -77,8 +77,12 @@ class Clause(object):
                     instances=self.instances[:40], notes=self.notes)
 
 
+LAST_RESULT = [None]      # the result object under construction (read by sa/check.py when a later clause cannot bind)
+
+
 class Result(object):
     def __init__(self, prop):
+        LAST_RESULT[0] = self
         self.prop = prop
         self.clauses = []
         self.findings = []
